@@ -630,3 +630,71 @@ def expr_mentions(e):
                 walk(y)
     walk(e)
     return fields, calls
+
+
+def subst_args(e, actual):
+    """replace parameter paths (arg i) in expression e by the caller's argument expressions"""
+    if e[0] == "path":
+        root = e[1]
+        if isinstance(root, tuple) and root[0] == "arg" and 1 <= root[1] <= len(actual):
+            a = actual[root[1] - 1]
+            f = list(e[2])
+            dn = list(e[3]) if len(e) > 3 else []
+            if not f and not dn:
+                return a
+            if a[0] == "path":
+                return ("path", a[1], list(a[2]) + f, list(a[3] if len(a) > 3 else []) + dn)
+            return ("proj", a, f, dn)
+        return e
+    if e[0] == "call":
+        return ("call", e[1], [subst_args(a, actual) for a in e[2]], e[3] if len(e) > 3 else 0)
+    if e[0] == "bin":
+        return ("bin", e[1], subst_args(e[2], actual), subst_args(e[3], actual))
+    if e[0] == "un":
+        return ("un", e[1], subst_args(e[2], actual))
+    if e[0] == "proj":
+        return ("proj", subst_args(e[1], actual), e[2], e[3] if len(e) > 3 else [])
+    if e[0] == "agg":
+        return ("agg", e[1], [subst_args(a, actual) for a in e[2]])
+    if e[0] == "phi":
+        return ("phi", e[1], [subst_args(a, actual) for a in e[2]])
+    return e
+
+
+def inline_expr(prog, e, crate="rustic_core", depth=0, maxdepth=4):
+    """inline calls of small functions of the analysed crate (their return expression with arguments substituted) and
+    resolve projections out of the tuples / structs they build; third-party and std calls stay as call nodes"""
+    if not isinstance(e, tuple):
+        return e
+    k = e[0]
+    if k == "call":
+        args = [inline_expr(prog, a, crate, depth, maxdepth) for a in e[2]]
+        tb = prog.bodies.get(e[1])
+        if tb is not None and tb.crate == crate and depth < maxdepth and len(tb.blocks) <= 60:
+            actual = args
+            if tb.is_closure() and len(args) == 2 and args[1][0] == "agg":
+                actual = [args[0]] + list(args[1][2])
+            return inline_expr(prog, subst_args(place_expr(tb, [0]), actual), crate, depth + 1, maxdepth)
+        return ("call", e[1], args, e[3] if len(e) > 3 else 0)
+    if k == "proj":
+        inner = inline_expr(prog, e[1], crate, depth, maxdepth)
+        fields = list(e[2])
+        downs = list(e[3]) if len(e) > 3 else []
+        # wrappers of `?` / Option / Result are transparent: drop their payload field
+        while inner[0] == "agg" and fields and inner[1][0] in ("tuple", "adt") and fields[0].isdigit() and int(fields[0]) < len(inner[2]):
+            inner = inner[2][int(fields[0])]
+            fields = fields[1:]
+            if downs:
+                downs = downs[1:]
+        if not fields and not downs:
+            return inner
+        return ("proj", inner, fields, downs)
+    if k == "bin":
+        return ("bin", e[1], inline_expr(prog, e[2], crate, depth, maxdepth), inline_expr(prog, e[3], crate, depth, maxdepth))
+    if k == "un":
+        return ("un", e[1], inline_expr(prog, e[2], crate, depth, maxdepth))
+    if k == "agg":
+        return ("agg", e[1], [inline_expr(prog, a, crate, depth, maxdepth) for a in e[2]])
+    if k == "phi":
+        return ("phi", e[1], [inline_expr(prog, a, crate, depth, maxdepth) for a in e[2]])
+    return e
